@@ -274,6 +274,18 @@ def _cast_elems(a, src, dst):
     return _map(lambda x: _elem(_to_py(x, src, dst), dst), a)
 
 
+def _downcast_overflow(src, dst, t):
+    """Optional model of overflow at a float downcast (C13): a finite value may become Inf -- a fresh symbolic event."""
+    if not symx.CTX.opts.get("downcast_overflow") or _concrete() or src.cat != 2 or dst.cat != 2 or dst.bits >= src.bits:
+        return False
+    if t.a.size == 0 or builtins.all(isinstance(x, SymReal) and x.c is not None for x in t.a.reshape(-1)):
+        return False  # constants of the harness / zeros do not overflow
+    ev = symx.CTX.shared.setdefault("overflow_events", [])
+    b = symx.symbool(f"overflow_{len(ev)}")
+    ev.append(b)
+    return b
+
+
 def _to_py(x, src, dst):
     if dst.cat == 2:
         if isinstance(x, SymBool):
@@ -518,7 +530,9 @@ class Tensor:
         if dt is None or dt is self.dtype:
             return self
         t = Tensor(_cast_elems(self.a, self.dtype, dt), dt)
-        return t._nf_from(self)
+        t._nf_from(self)
+        t.nf_inf = _or(t.nf_inf, _downcast_overflow(self.dtype, dt, self))
+        return t
 
     def type(self, dt):
         return self.to(dtype=dt)
@@ -738,7 +752,7 @@ class Tensor:
             if src.shape != s.a.shape:
                 src = np.broadcast_to(src, s.a.shape)
             s.a[...] = src
-            s.nf_nan, s.nf_inf = o.nf_nan, o.nf_inf
+            s.nf_nan, s.nf_inf = o.nf_nan, _or(o.nf_inf, _downcast_overflow(o.dtype, s.dtype, o))
         else:
             s.a[...] = _elem(o, s.dtype)
         return s
@@ -793,6 +807,9 @@ class Tensor:
 
     def isinf(s):
         return isinf(s)
+
+    def isfinite(s):
+        return isfinite(s)
 
     def count_nonzero(s):
         return count_nonzero(s)
@@ -1334,7 +1351,10 @@ def isinf(t):
 
 
 def isfinite(t):
-    raise HarnessError("torch.isfinite")
+    r = Tensor(_full(t.a.shape, True), bool)
+    r._flag = _or(t.nf_nan, t.nf_inf)
+    r.__class__ = _FiniteTensor
+    return r
 
 
 class _FlagTensor(Tensor):
@@ -1343,6 +1363,26 @@ class _FlagTensor(Tensor):
     def any(s):
         f = s._flag
         return Tensor(_scalar_arr(f if isinstance(f, (_bool, SymBool)) else _bool(f), bool), bool)
+
+
+class _FiniteTensor(Tensor):
+    """Result of isfinite: elementwise True unless the tensor carries a non-finite marker."""
+
+    def _neg(s):
+        f = s._flag
+        return (not f) if isinstance(f, _bool) else ~f
+
+    def all(s):
+        return Tensor(_scalar_arr(s._neg(), bool), bool)
+
+    def any(s):
+        return Tensor(_scalar_arr(s._neg() if s.a.size else False, bool), bool)
+
+    def __invert__(s):
+        r = Tensor(_full(s.a.shape, False), bool)
+        r._flag = s._flag
+        r.__class__ = _FlagTensor
+        return r
 
 
 def count_nonzero(t):
@@ -1790,3 +1830,6 @@ optim.optimizer.Optimizer = Optimizer
 from . import _sim  # noqa: E402
 
 _sim.install(sys.modules[__name__])
+from . import _extra  # noqa: E402
+
+_extra.install(sys.modules[__name__])
